@@ -415,6 +415,8 @@ def is_client_stub(term):
     if not sa.endswith('Client'):
         return False
     d = term.get('cdef', '')
+    if d.startswith('<') and ' as ' in d.split('>::')[0]:
+        return False          # a workspace trait implemented FOR a client type (an extension trait) is ordinary code, not a generated stub
     name = d.rsplit('::', 1)[-1]
     return name not in ('new',)
 
